@@ -481,7 +481,7 @@ class CallMixin:
             # ghost snapshots the *caller's* contract asks for at this call site (witnesses for its own ensures)
             if self.cur is not None and s.depth == 0:
                 for gname, gsrc in self.cur.extra.get("snapshots", {}).get("%s#%d" % (name, n), []):
-                    gv = self.spec_value(s, gsrc, self.root_fid, s.heap0, s.entry_frame, {})
+                    gv = self.spec_value(s, gsrc, fid, s.heap0, None, {})
                     s.frames[self.root_fid][gname] = gv
             # preconditions
             for label, src, props in c.requires:
@@ -501,6 +501,8 @@ class CallMixin:
             a1 = self.fresh("alloc", I)
             s.assume(a1 >= a0)
             s.heap["$alloc"] = a1
+            if c.modifies:
+                self.wf_assume(s)
             outcomes = []
             # exceptional outcomes
             for ri, rs in enumerate(c.raises or []):
